@@ -184,7 +184,7 @@ func authorizeNodeCommon(
 			// and handle receiving duplicate reqInfo by returning the stored nodeInfo
 			var dre *types.DuplicateRecordError
 			if errors.As(err, &dre) || errors.As(err, &types.DuplicateRecordError{}) {
-				loadNodeInfo, err := types.LoadNodeInformation(ctx, storage, nodeInfo.Id)
+				loadNodeInfo, err := types.LoadNodeInformation(ctx, storage, nodeInfo.Id, opt...)
 				if err == nil {
 					return loadNodeInfo, nil
 				}
